@@ -48,15 +48,19 @@ IsRatVec(v) == IsRat(v[1]) /\ IsRat(v[2]) /\ IsRat(v[3])
 ASSUME \A i \in 1..NP : IsRatVec(Pts[i]) /\ IsUnit(Pts[i]) /\ DenOK(Pts[i])
 ASSUME \A i, j \in 1..NP : i # j => Pts[i] # Pts[j]
 
+(* 1/20000 and 1/1000000 are caps of 0.57 and 0.08 degrees: Mangle's %.16g writes such cm in *)
+(* exponent notation (5e-05, 1e-06).  Every pool point other than the centre is at 1 - x.p   *)
+(* >= 1/91 from any other pool point, so membership stays decided with a huge margin.              *)
 CMs == {Q(1, 100), Q(1, 2), Q(1, 1), Q(3, 2), Q(199, 100), Q(2, 1), Q(0, 1),
-        Q(-1, 100), Q(-1, 2), Q(-1, 1), Q(-3, 2), Q(-199, 100), Q(-2, 1)}
+        Q(-1, 100), Q(-1, 2), Q(-1, 1), Q(-3, 2), Q(-199, 100), Q(-2, 1),
+        Q(1, 20000), Q(-1, 20000), Q(1, 1000000), Q(-1, 1000000)}
 ASSUME \A q \in CMs : IsRat(q)
 
 (* caps used to build polygons: centres, antipodes and exact-boundary points all occur in Pts *)
 A345 == V(3, 4, 0, 5)
 CapPool == << MkCap(V(0, 0, 1, 1), Q(1, 2)),       MkCap(V(0, 0, 1, 1), Q(-1, 2)),
-              MkCap(V(1, 0, 0, 1), Q(1, 1)),       MkCap(A345, Q(1, 100)),
-              MkCap(A345, Q(-1, 100)),             MkCap(V(-3, -4, 0, 5), Q(199, 100)),
+              MkCap(V(1, 0, 0, 1), Q(1, 1)),       MkCap(A345, Q(1, 20000)),
+              MkCap(A345, Q(-1, 1000000)),             MkCap(V(-3, -4, 0, 5), Q(199, 100)),
               MkCap(V(2, 2, 1, 3), Q(3, 2)),       MkCap(V(-12, 0, -5, 13), Q(-3, 2)),
               MkCap(V(0, -1, 0, 1), Q(-1, 1)),     MkCap(V(12, 0, 5, 13), Q(1, 2)) >>
 ASSUME \A i \in DOMAIN CapPool : IsRatVec(CapPool[i].x) /\ IsUnit(CapPool[i].x) /\ IsRat(CapPool[i].cm) /\ DenOK(CapPool[i].x)
